@@ -51,7 +51,10 @@ BLOCKS = [("sscope", "A"), ("updated", "A"), ("ascope", "A"), ("updated", "R"), 
           ("updated", "R!"),
           # ops 9 / 10 (family "disposables"): an async scope WITHOUT positional state whose only
           # state is yielded by a disposable
-          ("dscope", "A"), ("dscope", "R")]
+          ("dscope", "A"), ("dscope", "R"),
+          # ops 11 / 12 (family "twins"): updates supplying two DISTINCT state classes that share
+          # module and qualified name
+          ("updated", "TA"), ("updated", "TB")]
 # op 5 = "use the shared prepared update": `with prepared_update: probe` in one step (no suspension
 # inside, so uses never overlap); the object was built by the root at its start and may be used by
 # every task, any number of times - each use must sit on top of the *user's* current state
@@ -201,6 +204,13 @@ def _deep_programs(tier: str):
                 if starts[1][0] == 0:
                     # the root enters its blocks and spawns both children within ONE step
                     yield {"scripts": [root, c1, c2], "starts": starts, "nopause": True}
+    tw = scripts(2, allowed=(0, 11, 12))
+    for root in tw:
+        for child in tw:
+            if not (11 in root + child and 12 in root + child):
+                continue
+            for pos in range(len(root) + 1):
+                yield {"scripts": [root, child], "starts": [[0, pos, "create" if pos % 2 else "spawn"]], "twins": True}
     # VERY deep nesting (9, 12 levels) in one task next to an observer
     for d in (9, 12) if tier == "quick" else (9, 12, 17):
         for pattern in ((1,), (1, 3, 0)):
@@ -236,8 +246,9 @@ def execute(program, ch: Chooser) -> Result:  # noqa: C901, PLR0915
 
     def probe(tid: int, env: list[dict], in_scope: bool, soft: bool, where: str) -> None:
         steps[0] += 1
-        got = probe_state(supplied, "d-first", types=("A", "R"))
-        exp = expected_state(env, in_scope, types=("A", "R"))
+        types_ = ("A", "R") if not program.get("twins") else ("A", "TA", "TB")
+        got = probe_state(supplied, "d-first", types=types_)
+        exp = expected_state(env, in_scope, types=types_)
         for k in exp:
             if got[k] != exp[k]:
                 if soft and got[k] == ("MissingContext",):
